@@ -125,9 +125,9 @@ async fn main() -> Result<(), Terminator> {
     {
         let st_mut = Arc::get_mut(&mut state).unwrap();
         let ctx_mut = Arc::get_mut(&mut st_mut.contexts).unwrap();
-        ctx_mut.default_timeout = st_mut.timeouts.idle;
-
         st_mut.timeouts = cfg.timeouts;
+        // tunnels take their idle timeout from the configuration that was just loaded
+        ctx_mut.default_timeout = st_mut.timeouts.idle;
         st_mut.listeners = listeners::from_config(&cfg.listeners)?;
         st_mut.connectors = connectors::from_config(&cfg.connectors)?;
 
